@@ -97,7 +97,9 @@ func checkHrefBase(p *core.Program, r *core.Report, rule string) {
 		if pp != pag {
 			continue
 		}
-		for _, call := range core.Calls(fn, func(ci ssa.CallInstruction) bool { return core.IsCallTo(ci, "mod/internal/stringutil.CreateAbsoluteURL") }) {
+		for _, call := range core.Calls(fn, func(ci ssa.CallInstruction) bool {
+			return core.IsCallTo(ci, "mod/internal/stringutil.CreateAbsoluteURL")
+		}) {
 			n++
 			ok, why := trace(fn, call.Common().Args[1], 0, map[ssa.Value]bool{})
 			if !ok {
